@@ -150,6 +150,11 @@ def _get_active_backend(
         default_parallel_config["backend"], backend_config, "backend"
     )
 
+    # Settings passed explicitly win over the ones of the enclosing contexts:
+    # remember where the hint and the constraint come from.
+    explicit_prefer = prefer is not default_parallel_config["prefer"]
+    explicit_require = require is not default_parallel_config["require"]
+
     prefer = _get_config_param(prefer, backend_config, "prefer")
     require = _get_config_param(require, backend_config, "require")
     verbose = _get_config_param(verbose, backend_config, "verbose")
@@ -165,9 +170,15 @@ def _get_active_backend(
             f"expected one of {VALID_BACKEND_CONSTRAINTS}"
         )
     if prefer == "processes" and require == "sharedmem":
-        raise ValueError(
-            "prefer == 'processes' and require == 'sharedmem' are inconsistent settings"
-        )
+        if explicit_prefer == explicit_require:
+            raise ValueError(
+                "prefer == 'processes' and require == 'sharedmem' are "
+                "inconsistent settings"
+            )
+        # The hint and the constraint come from different levels (one is
+        # explicit, the other is inherited from a context): prefer is only a
+        # hint, the constraint has to be met.
+        prefer = None
 
     explicit_backend = True
     if backend is None:
